@@ -1,2 +1,86 @@
-(* C21 placeholder; theorems follow *)
-From PB Require Import Json.JsonLexModel.
+(* C21 — protojson speaks exactly JSON.
+   Statements only; each closed by [exact] of a lemma proved in Json/*P.v.
+
+   Specification side (Json/JsonGrammar.v, Json/JsonUtf8.v): [json_text] is RFC 8259 as an
+   inductive grammar over bytes (strings are RFC 3629 UTF-8), [rfc_number], [rfc_string] its
+   number and string productions; [strip_number] / [is_json] are executable recognisers.
+   Code side: Json/JsonLexModel.v (Decoder), Json/JsonNumModel.v (parseNumber),
+   Json/JsonEncModel.v (Encoder). *)
+From Coq Require Import List NArith ZArith.
+From PB Require Import Base.PBytes Json.JsonUtf8 Json.JsonGrammar Json.JsonNumModel Json.JsonNumP
+  Json.JsonLexModel Json.JsonStrP Json.JsonLexP Json.JsonEncModel Json.JsonEncP.
+Import ListNotations.
+
+(* If reading tokens to EOF succeeds (and at least one token was read) the input is a JSON
+   text.  With F2 repaired this is the full theorem for numbers, strings and structure. *)
+Theorem C21_lexer_accepts_only_json :
+  forall input toks, read_all input = (toks, None) -> toks <> [] -> json_text input.
+Proof. exact lexer_accepts_only_json. Qed.
+Print Assumptions C21_lexer_accepts_only_json.
+
+(* The side condition [toks <> []] is necessary for the code as it stands: in Decoder.Read the
+   EOF test `d.lastToken.kind&scalar|ObjectClose|ArrayClose == 0` parses as
+   `((kind&scalar)|ObjectClose|ArrayClose) == 0`, which is constantly false, so blank input is
+   read as EOF without error.  (protojson.Unmarshal is not affected: it requires '{' first.) *)
+Theorem C21_lexer_blank_input_reads_eof :
+  exists input, read_all input = ([], None) /\ ~ json_text input.
+Proof. exact lexer_blank_input_reads_eof. Qed.
+Print Assumptions C21_lexer_blank_input_reads_eof.
+
+(* parseNumber is exactly the RFC 8259 number recogniser followed by the delimiter rule *)
+Theorem C21_parse_number_is_rfc_number :
+  forall input, parse_number input =
+    match strip_number input with
+    | Some r => if delim_or_end r then Some (length input - length r) else None
+    | None => None
+    end.
+Proof. exact parse_number_strip. Qed.
+Print Assumptions C21_parse_number_is_rfc_number.
+
+Theorem C21_parse_number_sound :
+  forall input n, parse_number input = Some n ->
+    rfc_number (firstn n input) /\ delim_or_end (skipn n input) = true /\ 0 < n <= length input.
+Proof. exact parse_number_sound. Qed.
+Print Assumptions C21_parse_number_sound.
+
+Theorem C21_parse_number_complete :
+  forall num r, rfc_number num -> delim_or_end r = true -> parse_number (num ++ r) = Some (length num).
+Proof. exact parse_number_complete. Qed.
+Print Assumptions C21_parse_number_complete.
+
+(* the executable number recogniser and the inductive grammar coincide *)
+Theorem C21_is_rfc_number_iff : forall s, is_rfc_number s = true <-> rfc_number s.
+Proof. exact is_rfc_number_iff. Qed.
+Print Assumptions C21_is_rfc_number_iff.
+
+(* parseString accepts only RFC 8259 strings (escapes, \u with surrogate pairs, UTF-8) *)
+Theorem C21_parse_string_sound :
+  forall pos inp s n, parse_string_at pos inp = Ok (s, n) ->
+    rfc_string (firstn n inp) /\ 2 <= n <= length inp /\
+    exists body, firstn n inp = c_quote :: body ++ [c_quote].
+Proof. exact parse_string_at_sound. Qed.
+Print Assumptions C21_parse_string_sound.
+
+(* appendString followed by parseString is the identity on every string the encoder accepts *)
+Theorem C21_string_escape_roundtrip :
+  forall s out rest pos, append_string s = (out, true) ->
+    parse_string_at pos (out ++ rest) = Ok (s, length out).
+Proof. exact string_escape_roundtrip. Qed.
+Print Assumptions C21_string_escape_roundtrip.
+
+(* Read's recursion after a comma is at most one level deep (justifies the shape of [read]) *)
+Theorem C21_read_step_after_comma :
+  forall st tok st', d_last st = KComma -> read_step st = Ok (tok, st') -> t_kind tok <> KComma.
+Proof. exact read_step_after_comma. Qed.
+Print Assumptions C21_read_step_after_comma.
+
+(* non-vacuity *)
+Definition C21_doc : list byte := ["{"; x22; "a"; x22; ":"; "["; "1"; "e"; "5"; ","; " "; "t"; "r"; "u"; "e"; "]"; "}"]%byte.
+Example C21_ex_reads : snd (read_all C21_doc) = None /\ length (fst (read_all C21_doc)) = 7.
+Proof. vm_compute. split; reflexivity. Qed.
+Example C21_ex_F2_rejected :
+  snd (read_all ["["; "1"; "e"; ","; "2"; "]"]%byte) <> None /\ parse_number ["1"; "e"; ","]%byte = None.
+Proof. vm_compute. split; [discriminate|reflexivity]. Qed.
+Example C21_ex_escape :
+  append_string [x22; x0a; x01; "a"]%byte = ([x22; x5c; x22; x5c; "n"; x5c; "u"; "0"; "0"; "0"; "1"; "a"; x22]%byte, true).
+Proof. vm_compute. reflexivity. Qed.
